@@ -1,5 +1,5 @@
 """
-C08 — sequence expressions: two thin clauses.
+C08 — sequence expressions: four thin clauses.
 
 R08.1 FOCUS-NUMBERING  the inner focus that E[n], position() and last() observe
 R08.2 SUBSEQUENCE-ROUND fn:subsequence rounds its position arguments with the half-up helper
@@ -90,6 +90,218 @@ def positional_args_rounded(f, res: RuleResult, rule: str, fn_name: str, helper:
                              f'positive infinity)'))
 
 
+def _is_fresh_copy(e: ast.expr, of: str) -> bool:
+    return isinstance(e, ast.Call) and dotted(e.func) in ('copy', 'copy.copy') and \
+        len(e.args) == 1 and dotted(e.args[0]) == of
+
+
+def r08_3(ctx, counts) -> RuleResult:
+    model = ctx.model
+    res = RuleResult(
+        'R08.3', 'RANGE-SELECTOR-ISOLATION',
+        'The range expressions of for/some/every are evaluated with the focus of the binding '
+        'expression: in XPathContext.iter_product (the cartesian-product iterator they share) '
+        'every call of a selector receives a fresh `copy(self)`, never `self` — the generators '
+        'are consumed interleaved, and a suspended generator leaves its focus on the context it '
+        'was given. Every binding expression that calls iter_product evaluates its body on a '
+        'copy of the context as well.')
+    cls = model.find_class('XPathContext')
+    f = cls.methods.get('iter_product')
+    if f is None:
+        raise AnalysisError('XPathContext.iter_product vanished')
+    sel = f.params()[1]
+    calls = []
+    for n in walk_local(f.node):
+        if isinstance(n, ast.Call) and n.args and not n.keywords:
+            fn = n.func
+            # x(ARG) with x iterating `selectors`, or selectors[k](ARG)
+            if isinstance(fn, ast.Subscript) and dotted(fn.value) == sel:
+                calls.append(n)
+            elif isinstance(fn, ast.Name):
+                for comp in walk_local(f.node):
+                    if isinstance(comp, (ast.ListComp, ast.GeneratorExp)) and any(
+                            isinstance(g.target, ast.Name) and g.target.id == fn.id
+                            and dotted(g.iter) == sel for g in comp.generators) and any(
+                            x is n for x in ast.walk(comp)):
+                        calls.append(n)
+                for loop in walk_local(f.node):
+                    if isinstance(loop, ast.For) and isinstance(loop.target, ast.Name) and \
+                            loop.target.id == fn.id and dotted(loop.iter) == sel and any(
+                            x is n for x in ast.walk(loop)):
+                        calls.append(n)
+    if len(calls) < 2:
+        raise AnalysisError(f'iter_product: {len(calls)} selector calls located (creation and '
+                            f're-creation expected)')
+    for c in calls:
+        ok = _is_fresh_copy(c.args[0], 'self')
+        res.instances.append(f'{f.key}: {stmt_text(c)} fresh copy={ok}')
+        if ok:
+            res.ok()
+        else:
+            res.fail(finding('R08.3', f, c, f'{stmt_text(c)[:40]}',
+                             f'`{stmt_text(c)[:50]}` runs a range selector on `{stmt_text(c.args[0])}`'
+                             f', the context object shared by all ranges and by the body: with '
+                             f'two b children (1, 3), `for $x in b, $y in b return $x + $y` '
+                             f'gives (2, 6) and `some $x in b satisfies count(b) = 2` is false'))
+    # callers: the body (last operand) is evaluated on a copy
+    n_callers = 0
+    for g in model.all_functions():
+        uses = [n for n in walk_local(g.node) if isinstance(n, ast.Call)
+                and isinstance(n.func, ast.Attribute) and n.func.attr == 'iter_product']
+        if not uses or g is f:
+            continue
+        n_callers += 1
+        body_calls = [n for n in walk_local(g.node) if isinstance(n, ast.Call)
+                      and isinstance(n.func, ast.Attribute) and n.func.attr in ('select', 'evaluate')
+                      and isinstance(n.func.value, ast.Subscript)
+                      and stmt_text(n.func.value) == 'self[-1]']
+        if not body_calls:
+            raise AnalysisError(f'{g.key}: body evaluation self[-1].select/evaluate not located')
+        for b in body_calls:
+            ok = bool(b.args) and _is_fresh_copy(b.args[0], 'context')
+            res.instances.append(f'{g.key}: {stmt_text(b)} on a copy={ok}')
+            if ok:
+                res.ok()
+            else:
+                res.fail(finding('R08.3', g, b, f'body {stmt_text(b)[:40]}',
+                                 f'`{stmt_text(b)[:50]}` evaluates the body of the binding '
+                                 f'expression on the context that carries the bindings: a focus '
+                                 f'change inside the body leaks into the next iteration'))
+    counts['iter_product_callers'] = n_callers
+    if n_callers < 2:
+        raise AnalysisError(f'only {n_callers} callers of iter_product located')
+    return res
+
+
+def r08_4(ctx, counts) -> RuleResult:
+    model = ctx.model
+    reg = ctx.reg
+    res = RuleResult(
+        'R08.4', 'OPERAND-ISOLATION-SIBLINGS',
+        'For every token that has both an evaluate and a select implementation iterating over '
+        'its operands (`for op in self`): if one of the two gives each operand a fresh '
+        '`copy(context)`, so does the other. The comma operator is the instance: its select '
+        'isolates the operands, and XPath 3.0+ reaches its evaluate for parenthesized sequences.')
+    seen = set()
+    n = 0
+    for rec in reg.all_records():
+        ev, se = rec.method('evaluate'), rec.method('select')
+        if ev is None or se is None or ev.origin == 'class' or se.origin == 'class':
+            continue
+        if (ev.func.key, se.func.key) in seen:
+            continue
+        seen.add((ev.func.key, se.func.key))
+
+        def operand_calls(fn, meth):
+            out = []
+            for loop in walk_local(fn.node):
+                if isinstance(loop, ast.For) and dotted(loop.iter) == 'self' and \
+                        isinstance(loop.target, ast.Name):
+                    for c in ast.walk(loop):
+                        if isinstance(c, ast.Call) and isinstance(c.func, ast.Attribute) and \
+                                c.func.attr in ('select', 'evaluate') and \
+                                dotted(c.func.value) == loop.target.id and c.args:
+                            out.append(c)
+            return out
+        a, b = operand_calls(ev.func, 'evaluate'), operand_calls(se.func, 'select')
+        if not a or not b:
+            continue
+        n += 1
+        iso_a = all(_is_fresh_copy(c.args[0], 'context') for c in a)
+        iso_b = all(_is_fresh_copy(c.args[0], 'context') for c in b)
+        res.instances.append(f'{rec.symbol!r}: {ev.func.name} isolates={iso_a}, '
+                             f'{se.func.name} isolates={iso_b}')
+        if iso_a == iso_b:
+            res.ok()
+        else:
+            lag = ev.func if not iso_a else se.func
+            res.fail(finding('R08.4', lag, (a if not iso_a else b)[0], f'{rec.symbol} operands',
+                             f'{lag.name} evaluates the operands of {rec.symbol!r} on the shared '
+                             f'context while its sibling gives each operand a copy: an operand '
+                             f'that moves the focus leaks into the next one '
+                             f'(a/count((//b, b)) differs between XPath 2.0 and 3.0)'))
+    counts['operand_loop_pairs'] = n
+    if n < 1:
+        raise AnalysisError('no evaluate/select pair iterating over its operands located')
+    return res
+
+
+def r08_5(ctx, counts) -> RuleResult:
+    """filter predicates: the predicate is evaluated for every item, on a copy of its focus"""
+    from ..engine.cfg import CFG
+    model = ctx.model
+    reg = ctx.reg
+    res = RuleResult(
+        'R08.5', 'PREDICATE-PER-ITEM',
+        'In the select method bound to the predicate operator "[": inside the loop over '
+        'select_with_focus every path from the loop header to a yield passes through the '
+        'evaluation of the predicate operand self[1] (so E[count(y)], E[position()] or '
+        'E[number(@n)] are re-evaluated for each item — no value is carried over from an earlier '
+        'item), and that evaluation receives copy(context) (the predicate cannot move the focus '
+        'of the item being filtered).')
+    funcs = set()
+    for pz in reg.PARSERS:
+        rec = reg.tables[pz].get('[')
+        if rec is not None:
+            ref = rec.method('select')
+            if ref is not None and ref.func is not None and ref.origin != 'class':
+                funcs.add(ref.func)
+    n = 0
+    for f in sorted(funcs, key=lambda q: q.key):
+        loops = [x for x in walk_local(f.node) if isinstance(x, ast.For)
+                 and 'select_with_focus' in stmt_text(x.iter)]
+        if not loops:
+            continue            # e.g. the array/map lookup form of '[' in 3.1
+        cfg = CFG(f.node)
+        for loop in loops:
+            head = [nd for nd in cfg.nodes if nd.ast is loop and nd.kind == 'for']
+            evals = []
+            for nd in cfg.nodes:
+                if nd.ast is None or nd.kind not in ('stmt', 'test'):
+                    continue
+                root = nd.ast.test if isinstance(nd.ast, (ast.If, ast.While)) else nd.ast
+                for c in ast.walk(root):
+                    if isinstance(c, ast.Call) and isinstance(c.func, ast.Attribute) and \
+                            c.func.attr in ('select', 'evaluate', 'select_results') and \
+                            stmt_text(c.func.value) == 'self[1]' and \
+                            any(x is nd.ast for b in loop.body for x in ast.walk(b)):
+                        evals.append((nd, c))
+            if not head or not evals:
+                raise AnalysisError(f'{f.key}: predicate loop / evaluation of self[1] not located')
+            for nd, c in evals:
+                iso = bool(c.args) and isinstance(c.args[0], ast.Call) and \
+                    dotted(c.args[0].func) in ('copy', 'copy.copy')
+                res.instances.append(f'{f.key}: {stmt_text(c)[:50]} on a copy={iso}')
+                if iso:
+                    res.ok()
+                else:
+                    res.fail(finding('R08.5', f, c, 'predicate on shared focus',
+                                     f'`{stmt_text(c)[:50]}` evaluates the predicate on the '
+                                     f'context of the focus loop itself'))
+            ys = [nd for nd in cfg.nodes if nd.ast is not None and nd.kind == 'stmt' and any(
+                isinstance(x, (ast.Yield, ast.YieldFrom)) for x in ast.walk(nd.ast))
+                and any(x is nd.ast for b in loop.body for x in ast.walk(b))]
+            enodes = [nd for nd, _ in evals]
+            for y in ys:
+                n += 1
+                path = cfg.path_avoiding(head, lambda q, y=y: q is y, lambda q: q in enodes)
+                res.instances.append(f'{f.key}: {stmt_text(y.ast)[:40]} after the predicate '
+                                     f'evaluation of the same item: {path is None}')
+                if path is None:
+                    res.ok()
+                else:
+                    res.fail(finding('R08.5', f, y.ast, 'yield bypasses predicate evaluation',
+                                     f'`{stmt_text(y.ast)[:40]}` is reachable from the loop header '
+                                     f'without evaluating the predicate for the current item '
+                                     f'({cfg.fmt_path(path)[:160]}): a value computed for an '
+                                     f'earlier item decides, so /r/x[count(y)] filters every x '
+                                     f'with the count of the first one'))
+    counts['predicate_yields'] = n
+    if n < 2:
+        raise AnalysisError(f'only {n} yields located in the predicate loop')
+    return res
+
+
 def run(ctx) -> dict:
     model = ctx.model
     counts: dict[str, int] = {}
@@ -151,12 +363,14 @@ def run(ctx) -> dict:
     positional_args_rounded(fs[0], r2, 'R08.2', 'subsequence', 'round_number')
     counts['subsequence_impl'] = len(fs)
     return {
-        'results': [r1, r2], 'counts': counts,
+        'results': [r1, r2, r08_3(ctx, counts), r08_4(ctx, counts), r08_5(ctx, counts)],
+        'counts': counts,
         'explanation':
             'Two thin structural clauses of C08 are decided: the focus numbering that '
             'predicates, position() and last() observe (materialised list, size = len, '
-            'positions 1..n), and half-up rounding of the position arguments of '
-            'fn:subsequence.',
+            'positions 1..n), half-up rounding of the position arguments of fn:subsequence, and '
+            'focus isolation of the operands of the binding expressions (for/some/every) and of '
+            'the comma operator.',
         'not_decided':
             'Every list-model equation of the property (count/head/tail/reverse/insert-before/'
             'remove/index-of/distinct-values/sum/avg/min/max/string-join, quantifier '
